@@ -8,10 +8,15 @@
 // used as containers of the syntax element values; NO mp4ff function is called from this file.
 // Syntax elements those structs cannot hold live in the HEVC*Tree / HEVC*Extra structs below.
 //
-// Multilayer (Annex F) and 3D (Annex I) extensions are only ever written as absent (flag = 0).
+// The multilayer (Annex F: F.7.3.2.2.4 sps_multilayer_extension, F.7.3.2.3.4 pps_multilayer_extension,
+// F.7.3.2.3.5 colour_mapping_table, F.7.3.2.3.6 colour_mapping_octants) and 3D (Annex I: I.7.3.2.2.5
+// sps_3d_extension, I.7.3.2.3.7 pps_3d_extension, I.7.3.2.3.8 delta_dlt) extensions of the parameter sets are
+// written when the corresponding flag of the value tree is set.
 package nalgen
 
 import (
+	"fmt"
+
 	"github.com/Eyevinn/mp4ff/hevc"
 )
 
@@ -552,6 +557,33 @@ func hevcWriteSPSSccExt(w *BitWriter, e *hevc.SPSSccExtension, chromaFormatIDC, 
 	w.Flag(e.IntraBoundaryFilteringDisabledFlag)
 }
 
+// hevcWriteSPS3dExt writes sps_3d_extension() (I.7.3.2.2.5): for d = 0 (texture layers) and d = 1 (depth
+// layers) iv_di_mc_enabled_flag[ d ], iv_mv_scal_enabled_flag[ d ], then for d = 0 log2_ivmc_sub_pb_size_minus3
+// ue(v), iv_res_pred_enabled_flag, depth_ref_enabled_flag, vsp_mc_enabled_flag, dbbp_enabled_flag and for d = 1
+// tex_mc_enabled_flag, log2_texmc_sub_pb_size_minus3 ue(v), intra_contour_enabled_flag,
+// intra_dc_only_wedge_enabled_flag, cqt_cu_part_pred_enabled_flag, inter_dc_only_enabled_flag,
+// skip_intra_enabled_flag.
+func hevcWriteSPS3dExt(w *BitWriter, e *hevc.SPS3dExtension) {
+	// d = 0
+	w.Flag(e.IvDiMcEnabledFlag0)
+	w.Flag(e.IvMvScalEnabledFlag0)
+	w.UE(uint64(e.Og2IvmcSubPbSizeMinus3))
+	w.Flag(e.IvResPredEnabledFlag)
+	w.Flag(e.DepthRefEnabledFlag)
+	w.Flag(e.VspMcEnabledFlag)
+	w.Flag(e.DbbpEnabledFlag)
+	// d = 1
+	w.Flag(e.IvDiMcEnabledFlag1)
+	w.Flag(e.IvMvScalEnabledFlag1)
+	w.Flag(e.TexMcEnabledFlag)
+	w.UE(uint64(e.Log2TexmcSubPbSizeMinus3))
+	w.Flag(e.IntraContourEnabledFlag)
+	w.Flag(e.IntraDcOnlyWedgeEnabledFlag)
+	w.Flag(e.CqtCuPartPredEnabledFlag)
+	w.Flag(e.InterDcOnlyEnabledFlag)
+	w.Flag(e.SkipIntraEnabledFlag)
+}
+
 // HEVCWriteSPS serialises seq_parameter_set_rbsp() into a complete NAL unit (nuh_layer_id 0).
 func HEVCWriteSPS(t *HEVCSPSTree) ([]byte, HEVCSPSInfo) {
 	return HEVCWriteSPSH(t, nil)
@@ -662,13 +694,19 @@ func HEVCWriteSPSH(t *HEVCSPSTree, hz *Hostile) ([]byte, HEVCSPSInfo) {
 	w.Flag(s.ExtensionPresentFlag)
 	if s.ExtensionPresentFlag {
 		w.Flag(s.RangeExtensionFlag)
-		w.Flag(false) // sps_multilayer_extension_flag: only ever absent
-		w.Flag(false) // sps_3d_extension_flag: only ever absent
+		w.Flag(s.MultilayerExtensionFlag) // sps_multilayer_extension_flag
+		w.Flag(s.D3ExtensionFlag)         // sps_3d_extension_flag
 		w.Flag(s.SccExtensionFlag)
 		w.U(uint64(s.Extension4bits), 4)
 	}
 	if s.RangeExtensionFlag {
 		hevcWriteSPSRangeExt(w, s.RangeExtension)
+	}
+	if s.MultilayerExtensionFlag {
+		w.Flag(s.MultilayerExtension.InterViewMvVertConstraintFlag) // sps_multilayer_extension(): inter_view_mv_vert_constraint_flag
+	}
+	if s.D3ExtensionFlag {
+		hevcWriteSPS3dExt(w, s.D3Extension)
 	}
 	if s.SccExtensionFlag {
 		hevcWriteSPSSccExt(w, s.SccExtension, int(s.ChromaFormatIDC), int(s.BitDepthLumaMinus8)+8, int(s.BitDepthChromaMinus8)+8)
@@ -691,6 +729,10 @@ type HEVCPPSTree struct {
 	TemporalIDPlus1 byte                 `json:"tid_plus1"`
 	PPS             hevc.PPS             `json:"pps"`
 	ScalingList     *HEVCScalingListData `json:"scaling_list,omitempty"` // when PPS.ScalingListDataPresentFlag
+	// CmOctants is the coding of colour_mapping_octants( 0, 0, 0, 0, 1 << cm_octant_depth ) when
+	// PPS.MultilayerExtension.ColourMappingEnabledFlag: the library struct holds only the flattened result (a map
+	// keyed by [ idxShiftY ][ idxCb ][ idxCr ]), not the split_octant_flag tree. HEVCCmOctantMap derives that map.
+	CmOctants *HEVCCmOctant `json:"cm_octants,omitempty"`
 }
 
 type HEVCPPSInfo struct {
@@ -747,6 +789,249 @@ func hevcWritePPSSccExt(w *BitWriter, e *hevc.SccExtension) {
 					w.U(uint64(e.PalettePredictorInitializer[comp][i]), n)
 				}
 			}
+		}
+	}
+}
+
+// ---------------------------------------------------------------------------------------------
+// F.7.3.2.3.4 pps_multilayer_extension, F.7.3.2.3.5 colour_mapping_table, F.7.3.2.3.6 colour_mapping_octants
+
+// HEVCCmOctant is one invocation of colour_mapping_octants( inpDepth, idxY, idxCb, idxCr, inpLength ).
+type HEVCCmOctant struct {
+	// Split is split_octant_flag (coded only while inpDepth < cm_octant_depth, otherwise inferred 0).
+	Split bool `json:"split,omitempty"`
+	// Sub holds, when Split, the 8 sub-octants in coding order: k (luma half) outermost, then m (Cb), then n (Cr).
+	Sub []HEVCCmOctant `json:"sub,omitempty"`
+	// Leaves holds, when !Split, PartNumY = 1 << cm_y_part_num_log2 entries (one per luma partition i), each
+	// with the 4 vertices j: coded_res_flag and res_coeff_q / res_coeff_r / res_coeff_s for c = 0..2.
+	Leaves [][4]hevc.Octant `json:"leaves,omitempty"`
+}
+
+// HEVCCmResLsBits is CMResLSBits = Max( 0, 10 + BitDepthCmInputY − BitDepthCmOutputY − cm_res_quant_bits −
+// ( cm_delta_flc_bits_minus1 + 1 ) ), the length of res_coeff_r.
+func HEVCCmResLsBits(cm *hevc.ColourMappingTable) int {
+	bitDepthIn := 8 + int64(cm.LumaBitDepthCmInputMinus8)
+	bitDepthOut := 8 + int64(cm.LumaBitDepthCmOutputMinus8)
+	n := 10 + bitDepthIn - bitDepthOut - int64(cm.ResQuantBits) - (int64(cm.DeltaFlcBitsMinus1) + 1)
+	if n < 0 {
+		return 0
+	}
+	return int(n)
+}
+
+// HEVCCmOctantKey is the key the library uses for [ idxShiftY ][ idxCb ][ idxCr ].
+func HEVCCmOctantKey(idxShiftY, idxCb, idxCr uint64) string {
+	return fmt.Sprintf("%d-%d-%d", idxShiftY, idxCb, idxCr)
+}
+
+// hevcCmWalk visits the octant tree in coding order. At every node onNode is called (with canSplit telling whether
+// split_octant_flag is coded there); at every leaf entry onLeaf is called with the array indices the syntax
+// table assigns to it: idxShiftY = idxY + ( i << ( cm_octant_depth − inpDepth ) ), idxCb, idxCr.
+func hevcCmWalk(cm *hevc.ColourMappingTable, root *HEVCCmOctant, onNode func(n *HEVCCmOctant, canSplit bool),
+	onLeaf func(idxShiftY, idxCb, idxCr uint64, leaf *[4]hevc.Octant)) {
+	maxDepth := uint(cm.OctantDepth)
+	partNumY := uint64(1) << uint(cm.YPartNumLog2)
+	var walk func(n *HEVCCmOctant, depth uint, y0, cb0, cr0, length uint64)
+	walk = func(n *HEVCCmOctant, depth uint, y0, cb0, cr0, length uint64) {
+		canSplit := depth < maxDepth
+		if onNode != nil {
+			onNode(n, canSplit)
+		}
+		if canSplit && n.Split {
+			half := length / 2
+			for q := 0; q < 8; q++ { // q = 4k + 2m + n
+				k, m, c := uint64(q>>2&1), uint64(q>>1&1), uint64(q&1)
+				walk(&n.Sub[q], depth+1, y0+partNumY*k*half, cb0+m*half, cr0+c*half, half)
+			}
+			return
+		}
+		for i := uint64(0); i < partNumY; i++ {
+			onLeaf(y0+(i<<(maxDepth-depth)), cb0, cr0, &n.Leaves[i])
+		}
+	}
+	walk(root, 0, 0, 0, 0, uint64(1)<<maxDepth)
+}
+
+// HEVCCmOctantMap flattens the octant tree into the representation of hevc.ColourMappingTable.Octants: every
+// leaf entry of every (sub-)octant under its [ idxShiftY ][ idxCb ][ idxCr ] key.
+func HEVCCmOctantMap(cm *hevc.ColourMappingTable, root *HEVCCmOctant) map[string][4]hevc.Octant {
+	out := map[string][4]hevc.Octant{}
+	if root == nil {
+		return out
+	}
+	hevcCmWalk(cm, root, nil, func(y, cb, cr uint64, leaf *[4]hevc.Octant) {
+		out[HEVCCmOctantKey(y, cb, cr)] = *leaf
+	})
+	return out
+}
+
+// HEVCCmOctantHasSplit reports whether any split_octant_flag equal to 1 is coded in the tree.
+func HEVCCmOctantHasSplit(cm *hevc.ColourMappingTable, root *HEVCCmOctant) bool {
+	split := false
+	if root == nil {
+		return false
+	}
+	hevcCmWalk(cm, root, func(n *HEVCCmOctant, canSplit bool) {
+		if canSplit && n.Split {
+			split = true
+		}
+	}, func(uint64, uint64, uint64, *[4]hevc.Octant) {})
+	return split
+}
+
+func hevcWriteCmTable(w *BitWriter, cm *hevc.ColourMappingTable, root *HEVCCmOctant) {
+	w.UE(uint64(cm.NumCmRefLayersMinus1))
+	for i := 0; i <= int(cm.NumCmRefLayersMinus1); i++ {
+		w.U(uint64(cm.RefLayerId[i]), 6) // cm_ref_layer_id[ i ]
+	}
+	w.U(uint64(cm.OctantDepth), 2)  // cm_octant_depth
+	w.U(uint64(cm.YPartNumLog2), 2) // cm_y_part_num_log2
+	w.UE(uint64(cm.LumaBitDepthCmInputMinus8))
+	w.UE(uint64(cm.ChromaBitDepthCmInputMinus8))
+	w.UE(uint64(cm.LumaBitDepthCmOutputMinus8))
+	w.UE(uint64(cm.ChromaBitDepthCmOutputMinus8))
+	w.U(uint64(cm.ResQuantBits), 2)       // cm_res_quant_bits
+	w.U(uint64(cm.DeltaFlcBitsMinus1), 2) // cm_delta_flc_bits_minus1
+	if cm.OctantDepth == 1 {
+		w.SE(int64(cm.AdaptThresholdUDelta))
+		w.SE(int64(cm.AdaptThresholdVDelta))
+	}
+	resLsBits := HEVCCmResLsBits(cm)
+	hevcCmWalk(cm, root, func(n *HEVCCmOctant, canSplit bool) {
+		if canSplit {
+			w.Flag(n.Split) // split_octant_flag
+		}
+	}, func(_, _, _ uint64, leaf *[4]hevc.Octant) {
+		for j := 0; j < 4; j++ {
+			v := &leaf[j]
+			w.Flag(v.CodedResFlag)
+			if !v.CodedResFlag {
+				continue
+			}
+			for c := 0; c < 3; c++ {
+				q, r := uint64(v.CodedRes[c].ResCoeffQ), uint64(v.CodedRes[c].ResCoeffR)
+				w.UE(q)
+				w.U(r, resLsBits)
+				if q != 0 || r != 0 {
+					w.Flag(v.CodedRes[c].ResCoeffS)
+				}
+			}
+		}
+	})
+}
+
+func hevcWritePPSMultilayerExt(w *BitWriter, e *hevc.MultilayerExtension, cmRoot *HEVCCmOctant) {
+	w.Flag(e.PocResetInfoPresentFlag)
+	w.Flag(e.InferScalingListFlag) // pps_infer_scaling_list_flag
+	if e.InferScalingListFlag {
+		w.U(uint64(e.ScalingListRefLayerId), 6) // pps_scaling_list_ref_layer_id
+	}
+	w.UE(uint64(e.NumRefLocOffsets))
+	for i := 0; i < int(e.NumRefLocOffsets); i++ {
+		id := e.RefLocOffsetLayerIds[i]
+		o := e.RefLocOffsets[id] // the offsets are arrays indexed by ref_loc_offset_layer_id[ i ]
+		w.U(uint64(id), 6)
+		w.Flag(o.ScaledRefLayerOffsetPresentFlag)
+		if o.ScaledRefLayerOffsetPresentFlag {
+			w.SE(int64(o.ScaledRefLayerLeftOffset))
+			w.SE(int64(o.ScaledRefLayerTopOffset))
+			w.SE(int64(o.ScaledRefLayerRightOffset))
+			w.SE(int64(o.ScaledRefLayerBottomOffset))
+		}
+		w.Flag(o.RefRegionOffsetPresentFlag)
+		if o.RefRegionOffsetPresentFlag {
+			w.SE(int64(o.RefRegionLeftOffset))
+			w.SE(int64(o.RefRegionTopOffset))
+			w.SE(int64(o.RefRegionRightOffset))
+			w.SE(int64(o.RefRegionBottomOffset))
+		}
+		w.Flag(o.ResamplePhaseSetPresentFlag)
+		if o.ResamplePhaseSetPresentFlag {
+			w.UE(uint64(o.PhaseHorLuma))
+			w.UE(uint64(o.PhaseVerLuma))
+			w.UE(uint64(o.PhaseHorChromaPlus8))
+			w.UE(uint64(o.PhaseVerChromaPlus8))
+		}
+	}
+	w.Flag(e.ColourMappingEnabledFlag)
+	if e.ColourMappingEnabledFlag {
+		hevcWriteCmTable(w, e.ColourMappingTable, cmRoot)
+	}
+}
+
+// ---------------------------------------------------------------------------------------------
+// I.7.3.2.3.7 pps_3d_extension, I.7.3.2.3.8 delta_dlt
+
+// HEVCDeltaDltWidths returns the lengths in bits of min_diff_minus1 (Ceil( Log2( max_diff + 1 ) ); 0 when the
+// element is not coded) and of delta_val_diff_minus_min[ k ] (Ceil( Log2( max_diff − minDiff + 1 ) )), whether
+// min_diff_minus1 is coded (num_val_delta_dlt > 2 && max_diff > 0), and the number of
+// delta_val_diff_minus_min elements (num_val_delta_dlt − 1 when max_diff > minDiff, else 0). When
+// min_diff_minus1 is not coded it is inferred equal to max_diff − 1, i.e. minDiff = max_diff.
+func HEVCDeltaDltWidths(numVal, maxDiff, minDiffMinus1 uint64) (minDiffBits, elemBits int, minDiffCoded bool, numElems uint64) {
+	if numVal == 0 {
+		return 0, 0, false, 0
+	}
+	if numVal <= 1 {
+		maxDiff = 0 // max_diff not present: inferred 0
+	}
+	minDiff := maxDiff
+	if numVal > 2 && maxDiff > 0 {
+		minDiffCoded = true
+		minDiffBits = HEVCCeilLog2(maxDiff + 1)
+		minDiff = minDiffMinus1 + 1
+	}
+	if maxDiff > minDiff {
+		elemBits = HEVCCeilLog2(maxDiff - minDiff + 1)
+		numElems = numVal - 1
+	}
+	return
+}
+
+func hevcWriteDeltaDlt(w *BitWriter, d *hevc.DeltaDlt, depthBits int) {
+	w.U(uint64(d.NumValDeltaDlt), depthBits) // num_val_delta_dlt
+	if d.NumValDeltaDlt == 0 {
+		return
+	}
+	if d.NumValDeltaDlt > 1 {
+		w.U(uint64(d.MaxDiff), depthBits) // max_diff
+	}
+	minDiffBits, elemBits, minDiffCoded, numElems := HEVCDeltaDltWidths(uint64(d.NumValDeltaDlt), uint64(d.MaxDiff), uint64(d.MinDiffMinus1))
+	if minDiffCoded {
+		w.U(uint64(d.MinDiffMinus1), minDiffBits) // min_diff_minus1
+	}
+	w.U(uint64(d.DeltaDltVal0), depthBits) // delta_dlt_val0
+	for k := uint64(0); k < numElems; k++ {
+		w.U(uint64(d.DeltaValDiffMinusMin[k]), elemBits) // delta_val_diff_minus_min[ k + 1 ]
+	}
+}
+
+func hevcWritePPS3dExt(w *BitWriter, e *hevc.D3Extension) {
+	w.Flag(e.DltsPresentFlag)
+	if !e.DltsPresentFlag {
+		return
+	}
+	w.U(uint64(e.NumDepthLayersMinus1), 6)         // pps_depth_layers_minus1
+	w.U(uint64(e.BitDepthForDepthLayersMinus8), 4) // pps_bit_depth_for_depth_layers_minus8
+	depthBits := int(e.BitDepthForDepthLayersMinus8) + 8
+	for i := 0; i <= int(e.NumDepthLayersMinus1); i++ {
+		l := &e.DepthLayers[i]
+		w.Flag(l.DltFlag)
+		if !l.DltFlag {
+			continue
+		}
+		w.Flag(l.DltPredFlag)
+		valFlags := false // dlt_val_flags_present_flag, inferred 0 when dlt_pred_flag
+		if !l.DltPredFlag {
+			w.Flag(l.DltValFlagsPresentFlag)
+			valFlags = l.DltValFlagsPresentFlag
+		}
+		if valFlags {
+			// j = 0..depthMaxValue, depthMaxValue = ( 1 << ( pps_bit_depth_for_depth_layers_minus8 + 8 ) ) − 1
+			for j := 0; j < 1<<uint(depthBits); j++ {
+				w.Flag(l.DltValueFlag[j])
+			}
+		} else {
+			hevcWriteDeltaDlt(w, l.DeltaDlt, depthBits)
 		}
 	}
 }
@@ -825,13 +1110,19 @@ func HEVCWritePPSH(t *HEVCPPSTree, hz *Hostile) ([]byte, HEVCPPSInfo) {
 	w.Flag(p.ExtensionPresentFlag)
 	if p.ExtensionPresentFlag {
 		w.Flag(p.RangeExtensionFlag)
-		w.Flag(false) // pps_multilayer_extension_flag: only ever absent
-		w.Flag(false) // pps_3d_extension_flag: only ever absent
+		w.Flag(p.MultilayerExtensionFlag) // pps_multilayer_extension_flag
+		w.Flag(p.D3ExtensionFlag)         // pps_3d_extension_flag
 		w.Flag(p.SccExtensionFlag)
 		w.U(uint64(p.Extension4bits), 4)
 	}
 	if p.RangeExtensionFlag {
 		hevcWritePPSRangeExt(w, p.RangeExtension, p.TransformSkipEnabledFlag)
+	}
+	if p.MultilayerExtensionFlag {
+		hevcWritePPSMultilayerExt(w, p.MultilayerExtension, t.CmOctants)
+	}
+	if p.D3ExtensionFlag {
+		hevcWritePPS3dExt(w, p.D3Extension)
 	}
 	if p.SccExtensionFlag {
 		hevcWritePPSSccExt(w, p.SccExtension)
